@@ -36,7 +36,7 @@ Qed.
 
 Ltac unfold_sstep H :=
   unfold do_provision_v1, do_sstart, do_sstop, do_giveme, do_set_reserved, do_set_shared,
-    do_loop_provision, do_create_ret, do_lease, do_lease_ret, do_expire, do_recalc, do_sloop_shutdown, do_stime in H.
+    do_loop_provision, do_create_ret, do_lease, do_lease_ret, do_expire, do_recalc, do_sloop_shutdown, do_stime, relax_loop, rest_loop in H.
 
 (* ------------------------------------------------------------------ list facts *)
 
@@ -414,7 +414,8 @@ Proof.
          by (apply HI; destruct X as [X|X]; [left; congruence | right; congruence]));
       rewrite Forall_forall in *; intros x I; apply F; eapply remove_timer_in; eauto.
   - (* time *)
-    destruct ((s_now s <=? t) && expiries_ok c s t) eqn:E; [|discriminate]. some_inv H. bool_hyps.
+    destruct ((s_now s <=? t) && expiries_ok c s t && pace_ok c s t) eqn:E; [|discriminate]. some_inv H.
+    apply andb_prop in E. destruct E as [E _]. apply andb_prop in E. destruct E as [_ H0].
     unfold TimerInv, expiries_ok in *. simpl. intros X. rewrite forallb_forall in H0.
     apply Forall_forall. intros x I. specialize (H0 x I). apply orb_prop in H0. destruct H0 as [A|A].
     + now apply Z.leb_le.
@@ -489,7 +490,8 @@ Lemma exited_stays c s l s' o :
   s_loop s' = SExited /\ s_phase s' = SStopped.
 Proof.
   intros L P H. destruct l; simpl in H; unfold_sstep H; unfold at_top, loop_running in *; rewrite ?L, ?P in H;
-    cases_in H; try some_inv H; simpl; try (split; assumption); try (split; reflexivity); try discriminate.
+    cases_in H; try some_inv H; simpl; try (split; assumption); try (split; reflexivity);
+    try (split; [reflexivity|assumption]); try discriminate.
 Qed.
 
 (* V2 live reconfiguration *)
